@@ -211,7 +211,7 @@ func runCaseKeeping(c Case, keep *[]kept) verdict {
 		stream = append(append(append([]int{}, orig[:c.K]...), 21), orig[c.K:]...)
 	case "cut":
 		stream = stream[:c.K]
-	case "count":
+	case "count", "count-wrap":
 	case "wrong-block":
 		requested[5] ^= 1
 	case "wrong-root":
@@ -235,6 +235,12 @@ func runCaseKeeping(c Case, keep *[]kept) verdict {
 	if announced < 0 {
 		announced = 0
 	}
+	// announced counts at the boundaries of narrower integer types: the stream still holds exactly
+	// the header's transactions, the announcement is larger by 2^8 .. 2^63 (count-wrap, K = table index)
+	announcedU := uint64(announced)
+	if c.Kind == "count-wrap" {
+		announcedU = uint64(len(stream)) + countWraps[c.K]
+	}
 
 	bd := bitcoin_reader.NewBlockDownloader(rec, rec, requested, height)
 	rec.bd = bd
@@ -251,7 +257,7 @@ func runCaseKeeping(c Case, keep *[]kept) verdict {
 				panicked = fmt.Sprint(r)
 			}
 		}()
-		ret = bd.HandleBlock(ctx, header, uint64(announced), ch)
+		ret = bd.HandleBlock(ctx, header, announcedU, ch)
 	}()
 	fail := func(clause, fp, detail string) verdict {
 		return verdict{violation: &mc.Violation{Prop: "C04", Clause: clause, Fingerprint: clause + "|" + c.Kind + "|" + fp,
@@ -288,7 +294,7 @@ func runCaseKeeping(c Case, keep *[]kept) verdict {
 	for i, s := range stream {
 		received[i] = txids[s]
 	}
-	verified := *header.BlockHash() == requested && len(received) == announced &&
+	verified := *header.BlockHash() == requested && uint64(len(received)) == announcedU &&
 		len(received) > 0 && ref.MerkleRoot(received) == ref.Hash(header.MerkleRoot)
 	faultBefore := false // a fault or cancellation that happens before the confirmation stage
 	if rec.failKind == "err-process" && rec.failAt <= len(stream) {
@@ -309,7 +315,7 @@ func runCaseKeeping(c Case, keep *[]kept) verdict {
 			if verified {
 				why = "fault/cancel before the confirmation stage"
 			}
-			return fail("confirmation-without-verification", post[0].name, fmt.Sprintf("%s (%s) but %d confirmation-stage calls were made, first %s", why, describe(header, requested, received, announced), len(post), post[0].name))
+			return fail("confirmation-without-verification", post[0].name, fmt.Sprintf("%s (%s) but %d confirmation-stage calls were made, first %s", why, describe(header, requested, received, announcedU), len(post), post[0].name))
 		}
 		if complete == nil {
 			return fail("nil-complete-without-processing", "", "Complete carried nil although the block was not processed")
@@ -425,7 +431,7 @@ func runCaseKeeping(c Case, keep *[]kept) verdict {
 	return verdict{outcome: "partial:" + c.Kind}
 }
 
-func describe(header *wire.BlockHeader, requested bitcoin.Hash32, received []ref.Hash, announced int) string {
+func describe(header *wire.BlockHeader, requested bitcoin.Hash32, received []ref.Hash, announced uint64) string {
 	return fmt.Sprintf("hash-match=%t received=%d announced=%d root-match=%t", *header.BlockHash() == requested, len(received), announced,
 		len(received) > 0 && ref.MerkleRoot(received) == ref.Hash(header.MerkleRoot))
 }
@@ -467,6 +473,9 @@ func recompute(p *merkle_proof.MerkleProof) (ref.Hash, bool) {
 	return h, len(dups) == 0 && idx == 0
 }
 
+// countWraps: what a count-wrap case adds to the number of transactions streamed.
+var countWraps = []uint64{1 << 8, 1 << 16, 1 << 31, 1 << 32, 5 << 32, 1 << 63, 1<<63 | 1<<32}
+
 // enumerate builds the complete case list for a tier.
 func enumerate(thorough bool) []Case {
 	maxN, fullSubsetsUpTo := 8, 5
@@ -496,6 +505,9 @@ func enumerate(thorough bool) []Case {
 			add("none", 0, 0)
 			add("count", 0, 1)
 			add("count", 0, -1)
+			for k := range countWraps {
+				add("count-wrap", k, 0)
+			}
 			add("wrong-block", 0, 0)
 			add("wrong-root", 0, 0)
 			add("err-coinbase", 0, 0)
@@ -633,7 +645,7 @@ seq:
 		Coverage: map[string]any{
 			"evaluations":         len(cases),
 			"distinct_nontrivial": nontrivial,
-			"rule":                "complete Cartesian enumeration: block size n x relevant subset x {no corruption; drop/duplicate/alter/insert-foreign tx at every position; copy of the last 2 or 4 transactions appended (announcing the streamed and the original count); swap of every adjacent pair; stream cut after every k; announced count +-1; header not the requested one; header with wrong merkle root; error returned by ProcessTx at every call, by ProcessCoinbaseTx, by ConfirmTx at every relevant position, by AppendBlockTxIDs; Cancel, Cancel twice, and Stop followed by Cancel, issued from inside every ProcessTx call}. Each case is one execution of the real HandleBlock on a fresh BlockDownloader; plus the sequence part: every verified block with relevant transactions followed, in one process, by every case of up to 3 transactions with relevant ones, with a store that retains the list it is handed - after every download every record made so far must be unchanged. All cases are distinct by construction; non-trivial = has a corruption or fault (kind != none)",
+			"rule":                "complete Cartesian enumeration: block size n x relevant subset x {no corruption; drop/duplicate/alter/insert-foreign tx at every position; copy of the last 2 or 4 transactions appended (announcing the streamed and the original count); swap of every adjacent pair; stream cut after every k; announced count +-1 and larger by 2^8, 2^16, 2^31, 2^32, 5*2^32, 2^63, 2^63+2^32 (a count compared in a narrower type); header not the requested one; header with wrong merkle root; error returned by ProcessTx at every call, by ProcessCoinbaseTx, by ConfirmTx at every relevant position, by AppendBlockTxIDs; Cancel, Cancel twice, and Stop followed by Cancel, issued from inside every ProcessTx call}. Each case is one execution of the real HandleBlock on a fresh BlockDownloader; plus the sequence part: every verified block with relevant transactions followed, in one process, by every case of up to 3 transactions with relevant ones, with a store that retains the list it is handed - after every download every record made so far must be unchanged. All cases are distinct by construction; non-trivial = has a corruption or fault (kind != none)",
 			"exhaustive":          true,
 			"outcomes":            outcomes,
 			"samples":             samples,
